@@ -143,14 +143,17 @@ parseChunks:
 				return nil, fmt.Errorf("invalid ICC profile chunk length")
 			}
 
-			chunkData := make([]byte, ch.Length-offset)
-			_, err = io.ReadFull(r, chunkData)
-			if err == io.ErrUnexpectedEOF {
+			// Read into a growing buffer so that memory use follows the data
+			// actually present rather than the declared chunk length.
+			chunkDataBuffer := bytes.Buffer{}
+			_, err = io.CopyN(&chunkDataBuffer, r, int64(ch.Length-offset))
+			if err == io.EOF {
 				return nil, fmt.Errorf("unexpected EOF reading ICC profile chunk")
 			}
 			if err != nil {
 				return nil, err
 			}
+			chunkData := chunkDataBuffer.Bytes()
 
 			// Skip chunk CRC
 			_, err = binary.ReadU32Big(r)
